@@ -44,7 +44,22 @@ def run(ctx):
             # method must follow the CURRENT attributes
             T2, api2, gg2, rsi2, pb2 = dom.oil_params(rng)
             settings.append((T2, api2, gg2, rsi2, float(rng.uniform(0.5, 25)), float(rng.uniform(0.05, 0.4)), pb2, False, "fields re-assigned after use"))
+        if k % 3 == 2 and not dead:
+            # a COPY of an object that has been used (copy.copy / copy.deepcopy / pickle round trip, as a sensitivity study that keeps the
+            # base case does), with its fields changed on the copy: every method of the copy follows the copy's attributes
+            T2, api2, gg2, rsi2, pb2 = dom.oil_params(rng)
+            settings.append((T2, api2, gg2, rsi2, float(rng.uniform(0.5, 25)), float(rng.uniform(0.05, 0.4)), pb2, False,
+                             ["shallow copy of a used object, fields changed on the copy", "deep copy of a used object, fields changed on the copy",
+                              "pickle round trip of a used object, fields changed on the copy"][(k // 3) % 3]))
         for T, api, gg, rsi, sal, swi, pb, dead, how in settings:
+            if "copy of a used object" in how or "pickle round trip" in how:
+                import copy as _copy
+                import pickle as _pickle
+                try:
+                    fl = _copy.copy(fl) if how.startswith("shallow") else _copy.deepcopy(fl) if how.startswith("deep") else _pickle.loads(_pickle.dumps(fl))
+                except Exception as e:  # noqa: BLE001
+                    bad("a Fluid that has been used can no longer be copied / pickled", dict(object=how), repr(e)[:200])
+                    continue
             if how != "as constructed":
                 fl.temperature, fl.api_gravity, fl.gas_specific_gravity, fl.solution_gor_initial, fl.salinity, fl.water_saturation_initial = T, api, gg, rsi, sal, swi
             ps = np.sort(np.concatenate([rng.uniform(15, 2.5 * pb, 5), [pb]]))
